@@ -340,6 +340,12 @@ BranchSizesB == {<<1, 1>>, <<2, 1>>, <<1, 2>>, <<2, 2>>, <<3, 2>>}
 DeltasA == {<<1, 0>>, <<-1, 0>>, <<0, 1>>, <<0, -1>>, <<2, 0>>, <<-2, 0>>, <<0, 2>>, <<0, -2>>, <<1, 1>>, <<-2, -2>>,
             <<3, 0>>, <<-3, 0>>, <<0, 3>>, <<0, -3>>}
 EdgeDsA == {-1, 1}
+\* a long side with a short and a long branch next to each other (the order of the branches of a side is decided by
+\* their centres, not by an edge or by centre minus size: lengths 1 and 4, ratio > 3)
+TrunkSizes6 == {<<6, 6>>}
+BranchSizesL == {<<1, 1>>, <<4, 2>>}
+\* very elongated dies (tau = 0.01 * min(W, H) / n, not max): two 2x2 modules next to each other
+TrunkSizes2 == {<<2, 2>>}
 \* catalogues for LegalPost.tla: a trunk large enough for a branch to be fused into it, a 1x1 neighbour for the notch
 TrunkSizesP == {<<4, 5>>, <<1, 1>>}
 BranchSizesP == {<<3, 1>>, <<1, 1>>, <<1, 2>>}
